@@ -347,6 +347,39 @@ impl ClockCache {
     }
 }
 
+#[cfg(feature = "verif")]
+impl ClockCache {
+    /// Every entry in bucket order. Does not touch reference bits.
+    pub fn verif_entries(&self) -> Vec<crate::verif::CacheEntryDump> {
+        let mut entries = Vec::new();
+        for (bucket_index, bucket) in self.buckets.iter().enumerate() {
+            for entry in bucket.read().iter() {
+                entries.push(crate::verif::CacheEntryDump {
+                    bucket: bucket_index,
+                    key: entry.key.clone(),
+                    value_len: entry.value.len(),
+                    size: entry.size,
+                    referenced: entry.reference_bit.load(Ordering::Relaxed),
+                    record_ptr: entry.record.as_ref().map(|record| record.as_ptr() as usize),
+                    record_live: entry
+                        .record
+                        .as_ref()
+                        .is_some_and(|record| record.upgrade().is_some()),
+                });
+            }
+        }
+        entries
+    }
+
+    pub fn verif_hand(&self) -> usize {
+        self.clock_hand.load(Ordering::Relaxed)
+    }
+
+    pub fn verif_entry_overhead() -> usize {
+        std::mem::size_of::<CacheEntry>()
+    }
+}
+
 fn can_replace_generation(cached: Option<&Weak<Record>>, incoming: Option<&Arc<Record>>) -> bool {
     let Some(incoming) = incoming else {
         return true;
